@@ -301,9 +301,19 @@ func (c *c19) flow(b *world.Browser, issuer string, doc *oidc.DiscoveryConfigura
 			// both advertised: an S256 challenge carried inside the object must be recorded as such
 			payload = strings.TrimSuffix(payload, "}") + fmt.Sprintf(`,"code_challenge":%q,"code_challenge_method":"S256"}`, world.S256(verifier))
 		}
+		// the redirect URI may travel inside the object only (OIDC Core 6.1 requires client_id and response_type outside,
+		// nothing else)
+		uriInObjectOnly := w.Tape.Sub("ro-shape").Bool(1, 2)
+		if uriInObjectOnly {
+			payload = strings.TrimSuffix(payload, "}") + fmt.Sprintf(`,"redirect_uri":%q}`, jc.Redirects[0])
+			c.o.Probe("request-objects-that-alone-carry-the-redirect-uri")
+		}
 		tok := signRaw([]byte(payload), "RS256", key.Key, key.KeyID)
 		jc.LoginBase = issuer + "/login"
 		q := url.Values{"client_id": {"jwt"}, "redirect_uri": {jc.Redirects[0]}, "response_type": {"code"}, "scope": {"openid"}, "state": {"plain"}, "request": {tok}}
+		if uriInObjectOnly {
+			q.Del("redirect_uri")
+		}
 		r := b.Get(doc.AuthorizationEndpoint + "?" + q.Encode())
 		honoured := false
 		if r.Status == 302 && strings.Contains(r.Location, "/login?") {
